@@ -7,7 +7,7 @@ connection is handed back only after a successful request; HTTP 2xx / gRPC statu
 error is retryable."""
 import re
 
-from . import common, mir
+from . import batcher, common, mir
 from .mir import o_str
 
 SEND = "emit_otlp::client::OtlpTransport::<R>::send::{closure#0}"
@@ -446,6 +446,27 @@ def run(chk):
     # "Flush reports success only after all of this has happened": every configured signal is flushed (shared with C07)
     from . import c07
     batcher.when_flushed_table(chk, P, "C12.flush")
+    batcher.receiver_flags(chk, P, "C12.flush")
+    batcher.one_critical_section(chk, P, "C12.flush")
+
+    def poison_takes():
+        """HttpConnection::poison empties the connection slot on every path and returns what it took: while a request is in flight the slot
+        holds nothing, so a request that fails never puts a broken connection back (unpoison is only reached on success) and the next
+        request opens a fresh one - for either protocol version."""
+        b = P.body("emit_otlp::client::http::HttpConnection::poison")
+        tk = [c for c in b.calls(normal_only=True) if c.callee.get("name") in ("take",) and "Option" in (c.callee.get("path") or "")]
+        if len(tk) != 1 or not b.must_pass([tk[0].bb]):
+            return False, ("HttpConnection::poison does not empty the connection slot on every path (Option::take call sites: %d): a connection that "
+                           "stays in the slot is handed to the next request even after this one failed on it, so a broken connection is never replaced"
+                           % len(tk)), [], b.span
+        r = mir.o_root(b.origin(0))
+        if not (r[0] == "call" and r[1].bb == tk[0].bb):
+            return False, "HttpConnection::poison returns %s, not the connection it took out of the slot" % o_str(b.origin(0)), [], b.span
+        lk = [c for c in b.calls(normal_only=True) if c.callee.get("name") == "lock"]
+        if len(lk) != 1 or mir.o_field_path(b.origin(lk[0].args[0], through_calls=("deref",)))[1][-1:] != ["sender"]:
+            return False, "poison must take from self.sender under its lock", [], b.span
+        return True, "", [tk[0].loc]
+    chk.ob("C12.R4:poison-empties-slot", "taking the connection for a request empties the slot unconditionally (for HTTP/1 and HTTP/2 alike)", poison_takes)
     c07.end_to_end(chk, P, "C12.flush", only=("R5:OtlpInner::blocking_flush", "R5:Otlp::blocking_flush", "R5:otlp-transport"))
     common.builder_rules(chk, P, "C12", lambda b: b.crate == "emit_otlp" and ("Builder::" in b.key or "HttpContent::" in b.key), 10)
     # request grouping: the OTLP channel's clear() resets every field push() updates or len() reads (shared with C09)
